@@ -1,9 +1,9 @@
 package main
 
 import (
-	"errors"
 	"encoding/hex"
 	"encoding/json"
+	"errors"
 	"fmt"
 	"math/big"
 	"time"
